@@ -64,6 +64,8 @@ type scen struct {
 	provs  []sigs.Account
 	funder sigs.Account
 	val    sigs.Account
+	bonus  bool   // variant: provider bonus pools alive, a served regular subscription, IPRPC funds in a second denom
+	denom  string // denom of the IPRPC funds (bond denom, or "uibc" in the bonus variant)
 
 	fixCur   uint64
 	fixFunds map[uint64]map[string]sdk.Int
@@ -78,10 +80,28 @@ type scen struct {
 
 func (s *scen) coin(n int64) sdk.Coin { return sdk.NewCoin(s.w.TokenDenom(), sdk.NewInt(n)) }
 
-func build() *scen {
-	s := &scen{}
+// fundCoins is the coin set of an IPRPC funding whose nominal amount is n: in the bond denom it is n (of which the
+// minimum cost is kept by the chain); in the bonus variant the minimum cost is paid in the bond denom and the rest in
+// the second denom, so that IPRPC rewards can be told apart from the bond-denom bonus rewards.
+func (s *scen) fundCoins(n int64) sdk.Coins {
+	if s.denom == s.w.TokenDenom() {
+		return sdk.NewCoins(s.coin(n))
+	}
+	return sdk.NewCoins(s.coin(minCost), sdk.NewCoin(s.denom, sdk.NewInt(n-minCost)))
+}
+
+func (s *scen) modBal(module string) sdk.Int {
+	return s.w.Keepers.BankKeeper.GetBalance(s.w.Ctx, testkeeper.GetModuleAddress(module), s.denom).Amount
+}
+
+func build(bonus bool) *scen {
+	s := &scen{bonus: bonus}
 	w := chain.NewWorld()
 	s.w = w
+	s.denom = w.TokenDenom()
+	if bonus {
+		s.denom = "uibc"
+	}
 	w.SetEpochParams(4, 3)
 	s.val = w.AddValidator(0, 1000000)
 	for _, sp := range specs {
@@ -100,10 +120,16 @@ func build() *scen {
 		s.cons = append(s.cons, c)
 	}
 	s.funder, _ = w.AddAccount("funder", 0, 100000000)
+	if bonus {
+		w.Keepers.BankKeeper.SetBalance(w.Ctx, s.funder.Addr, sdk.NewCoins(s.coin(100000000), sdk.NewCoin(s.denom, sdk.NewInt(100000000))))
+	}
 	// the providers' bonus pools are depleted (as after the 4-year allocation lifetime) so that the only rewards paid
 	// at a month boundary are IPRPC rewards
-	for _, pool := range []rewardstypes.Pool{rewardstypes.ProvidersRewardsAllocationPool, rewardstypes.ProviderRewardsDistributionPool} {
-		w.Keepers.BankKeeper.SetBalance(w.Ctx, testkeeper.GetModuleAddress(string(pool)), sdk.NewCoins())
+	// (the bonus variant keeps the pools: there a spec pays a bond-denom bonus to the providers with base pay)
+	if !bonus {
+		for _, pool := range []rewardstypes.Pool{rewardstypes.ProvidersRewardsAllocationPool, rewardstypes.ProviderRewardsDistributionPool} {
+			w.Keepers.BankKeeper.SetBalance(w.Ctx, testkeeper.GetModuleAddress(string(pool)), sdk.NewCoins())
+		}
 	}
 	w.Must("iprpc data", w.Tx(func() error {
 		_, err := w.TxRewardsSetIprpcDataProposal(authtypes.NewModuleAddress(govtypes.ModuleName).String(), s.coin(minCost), []string{s.cons[0].Addr.String()})
@@ -125,10 +151,41 @@ func build() *scen {
 			panic(fmt.Sprintf("fixture: funding failed: %+v", st))
 		}
 	}
+	if bonus {
+		// p0 serves the regular subscription on mocka in the month before the fixture boundary; its payout lands
+		// after the boundary, so in the current month p0 has base pay on mocka (the spec pays a bonus) and p1 has none
+		s.session++
+		rs := &pairingtypes.RelaySession{Provider: s.provs[0].Addr.String(), ContentHash: []byte("apiname"), SessionId: 900 + s.session, SpecId: specs[0],
+			CuSum: 50, Epoch: int64(w.EpochStartNow()), RelayNum: 1, LavaChainId: chain.ChainID}
+		chain.SignRelay(s.cons[1], rs)
+		w.Must("fixture pay", w.Pay(rs.Provider, rs))
+	}
 	if viol, _ := s.boundary(); len(viol) > 0 {
 		panic(fmt.Sprintf("fixture: boundary: %+v", viol))
 	}
 	w.AdvanceToNextEpoch(chain.BlockDt)
+	if bonus {
+		// let the regular subscription's month expire and its payout (blocks-to-save later) run
+		sub, ok := w.Keepers.Subscription.GetSubscription(w.Ctx, s.cons[1].Addr.String())
+		if !ok {
+			panic("fixture: no regular subscription")
+		}
+		if left := time.Unix(int64(sub.MonthExpiryTime), 0).Sub(w.Ctx.BlockTime()); left > 0 {
+			w.NextBlock(left + time.Second)
+		}
+		for i := 0; i < 5; i++ {
+			w.AdvanceToNextEpoch(chain.BlockDt)
+		}
+		got := false
+		for _, bp := range w.Keepers.Rewards.GetAllBasePay(w.Ctx) {
+			if bp.Provider == s.provs[0].Addr.String() && bp.ChainId == specs[0] && bp.BasePay.Total.IsPositive() {
+				got = true
+			}
+		}
+		if !got {
+			panic("fixture(bonus): p0 has no base pay on " + specs[0])
+		}
+	}
 	s.fixCur = s.cur
 	s.fixFunds = copyFunds(s.funds)
 	w.MarkFixture()
@@ -246,14 +303,14 @@ func stable(x string) string {
 
 func v(key, what string) ev.Violation { return ev.Violation{Property: "C42", Key: key, What: what} }
 
-func (s *scen) iprpcPool() sdk.Int { return s.w.ModuleBalance(string(rewardstypes.IprpcPoolName)) }
+func (s *scen) iprpcPool() sdk.Int { return s.modBal(string(rewardstypes.IprpcPoolName)) }
 
 // realFunds reads the IprpcReward objects: month id -> spec -> amount of the bond denom.
 func (s *scen) realFunds() map[uint64]map[string]sdk.Int {
 	out := map[uint64]map[string]sdk.Int{}
 	for _, r := range s.w.Keepers.Rewards.GetAllIprpcReward(s.w.Ctx) {
 		for _, sf := range r.SpecFunds {
-			a := sf.Fund.AmountOf(s.w.TokenDenom())
+			a := sf.Fund.AmountOf(s.denom)
 			if a.IsZero() {
 				continue
 			}
@@ -349,13 +406,13 @@ func (x snap) String() string {
 
 func (s *scen) snap() snap {
 	w := s.w
-	x := snap{iprpc: s.iprpcPool(), dualst: w.ModuleBalance(dualstakingtypes.ModuleName), commBal: w.ModuleBalance(distributiontypes.ModuleName),
-		commPool: w.Keepers.Distribution.GetFeePool(w.Ctx).CommunityPool.AmountOf(w.TokenDenom()).TruncateInt()}
+	x := snap{iprpc: s.iprpcPool(), dualst: s.modBal(dualstakingtypes.ModuleName), commBal: s.modBal(distributiontypes.ModuleName),
+		commPool: w.Keepers.Distribution.GetFeePool(w.Ctx).CommunityPool.AmountOf(s.denom).TruncateInt()}
 	for _, p := range s.provs {
 		sum := sdk.ZeroInt()
 		for _, r := range w.Keepers.Dualstaking.GetAllDelegatorReward(w.Ctx) {
 			if r.Provider == p.Addr.String() {
-				sum = sum.Add(r.Amount.AmountOf(w.TokenDenom()))
+				sum = sum.Add(r.Amount.AmountOf(s.denom))
 			}
 		}
 		x.rec = append(x.rec, sum)
@@ -413,8 +470,8 @@ func (s *scen) boundary() (viol []ev.Violation, obs string) {
 		return iv, "violation"
 	}
 	// ---- expectation from the property, computed on the state right before the distribution
-	denom := w.TokenDenom()
-	mixed := s.payoutDue() // a subscription payout in the same end-block phase blurs the per-provider deltas
+	denom := s.denom
+	mixed := s.payoutDue() && !s.bonus // (in the bonus variant subscription payouts are in the bond denom, IPRPC rewards are not) // a subscription payout in the same end-block phase blurs the per-provider deltas
 	wantRec := make([]sdk.Int, len(s.provs))
 	for i := range wantRec {
 		wantRec[i] = sdk.ZeroInt()
@@ -526,7 +583,7 @@ func (s *scen) fund(o opdef) bfs.Step {
 	w := s.w
 	before := s.iprpcPool()
 	res := w.Tx(func() error {
-		msg := rewardstypes.NewMsgFundIprpc(s.funder.Addr.String(), specs[o.spec], o.duration, sdk.NewCoins(s.coin(o.amount)))
+		msg := rewardstypes.NewMsgFundIprpc(s.funder.Addr.String(), specs[o.spec], o.duration, s.fundCoins(o.amount))
 		if err := msg.ValidateBasic(); err != nil {
 			return err
 		}
@@ -620,7 +677,8 @@ func (s *scen) Apply(op int) bfs.Step {
 }
 
 func init() {
-	bfs.Register("c42", func() bfs.Scenario { return build() })
+	bfs.Register("c42", func() bfs.Scenario { return build(false) })
+	bfs.Register("c42/bonus", func() bfs.Scenario { return build(true) })
 	reg.Register(reg.Check{Property: "C42", Level: "model_checking", Run: func(run *ev.Run) {
 		depth, deadline := 4, 85*time.Second
 		if ev.Tier() == "thorough" {
@@ -630,6 +688,16 @@ func init() {
 		st := bfs.Explore(cfg, run)
 		bfs.Report(run, "", cfg, st)
 		exh := st.Exhaustive
+		// second start state: the providers' bonus pools are alive, p0 has base pay on mocka this month (the spec pays a
+		// bond-denom bonus), p1 has none; IPRPC funds are in a second denom so that both kinds of reward stay separable
+		cfgB := bfs.Config{Scenario: "c42/bonus", MaxDepth: depth - 1, Deadline: deadline / 2}
+		stB := bfs.Explore(cfgB, run)
+		bfs.Report(run, "bonus", cfgB, stB)
+		exh = exh && stB.Exhaustive
+		for o, n := range stB.Outcomes {
+			st.Outcomes[o] += n
+		}
+		st.HarnessErrors = append(st.HarnessErrors, stB.HarnessErrors...)
 		bad := int64(0)
 		for o, n := range st.Outcomes {
 			if strings.Contains(o, "noprobe") || strings.Contains(o, "INCONCLUSIVE") {
@@ -641,7 +709,7 @@ func init() {
 			exh = false
 		}
 		run.Set("exhaustive", exh)
-		run.Set("bound", fmt.Sprintf("all histories up to depth %d over 13 ops (fundIprpc mocka 1 month 1000 / 2 months 1001, mockb 1 month 1001 / 2 months 1000; relay payments by the eligible subscription: p0 on mocka 1 CU, p1 on mocka 2 CU, p1 on mockb 3 CU, p0 on mockb 2 CU; by the regular subscription: p0 on mocka 3 CU; unstake p1 from mocka; +1 block; next epoch; month boundary), at most %d month boundaries; fixture: 2 specs, 2 providers staked on both, min IPRPC cost 100, an eligible and a regular 6-month subscription, fundings mocka 2 months x 1001 and mockb 1 month x 1000 made one month boundary ago", depth, maxMonths))
-		run.Assume("mock bank/account keeper of testutil/keeper; begin/end blockers in app.go order (engine/chain); the month boundary is measured on a discarded fork that runs the end-block phase (staking, pairing, timerstore) alone; providers' bonus pools emptied in the fixture so that IPRPC rewards are the only rewards paid at a boundary; validators'/community participation percentages are taken from the rewards keeper (CalculateValidatorsAndCommunityParticipationRewards) as an input; a provider that unstaked from a spec before the boundary is not counted among the providers that served it (text is silent)")
+		run.Set("bound", fmt.Sprintf("all histories up to depth %d over 13 ops (fundIprpc mocka 1 month 1000 / 2 months 1001, mockb 1 month 1001 / 2 months 1000; relay payments by the eligible subscription: p0 on mocka 1 CU, p1 on mocka 2 CU, p1 on mockb 3 CU, p0 on mockb 2 CU; by the regular subscription: p0 on mocka 3 CU; unstake p1 from mocka; +1 block; next epoch; month boundary), at most %d month boundaries; fixture: 2 specs, 2 providers staked on both, min IPRPC cost 100, an eligible and a regular 6-month subscription, fundings mocka 2 months x 1001 and mockb 1 month x 1000 made one month boundary ago; a second start state (depth one less) keeps the bonus pools, gives p0 base pay on mocka in the current month and funds IPRPC in a second denom", depth, maxMonths))
+		run.Assume("mock bank/account keeper of testutil/keeper; begin/end blockers in app.go order (engine/chain); the month boundary is measured on a discarded fork that runs the end-block phase (staking, pairing, timerstore) alone; providers' bonus pools emptied in the first fixture so that IPRPC rewards are the only rewards paid at a boundary (in the second one IPRPC funds are in another denom instead); validators'/community participation percentages are taken from the rewards keeper (CalculateValidatorsAndCommunityParticipationRewards) as an input; a provider that unstaked from a spec before the boundary is not counted among the providers that served it (text is silent)")
 	}})
 }
